@@ -6,5 +6,5 @@ mkdir -p $D/src && cp -r /repo/src/vector $D/src/vector
 sed -i "$3" $D/src/vector/$2
 if diff -rq /repo/src/vector $D/src/vector >/dev/null; then echo "MUTATION DID NOT CHANGE ANYTHING"; fi
 diff -r /repo/src/vector $D/src/vector | grep '^[<>]' | head -6
-cd /verif && VERIF_REPO=$D VERIF_NO_EVIDENCE=1 /venv/bin/python -m verifstat check $1 2>&1 | grep -v "^WARNING\|witness" | tail -${4:-6}
+cd /verif && VERIF_REPO=$D VERIF_NO_EVIDENCE=1 VERIF_OUT=$D/out /venv/bin/python -m verifstat check $1 2>&1 | grep -v "^WARNING\|witness" | tail -${4:-6}
 rm -rf $D
